@@ -569,7 +569,7 @@ pub fn run(ctx: &Ctx) -> i32 {
         println!("replay C02: decoder {name}, {} bytes -> {:?}, peak allocation {} bytes", bytes.len(), res, alloc_window_peak());
         return 0;
     }
-    report.rule = "72 decoders (55 struct types, 17 reply enums). (i) exhaustive: every input of length <= 2 and cf,cf,len,body for every body of length <= 2; (ii) corpus of reference encodings of canonical values (>= 8 per type) + the repository's captured packets: every truncation and every single-byte substitution (256 values per offset; quick: offsets < 96 of a seed-dependent sample of 128 packets), each through the packet's own decoder and the reply enums; (iii) structure-aware random mutants of the reference chunk trees (length-prefix forms 81/82/82xx/FF/too long/too short, tag splices, BCD digit overflow, F nibbles, calendar values month 0-19 day 0-39 hour 0-29, duplicated/dropped groups, cuts inside containers) and large bodies up to 65535 bytes. Non-trivial = input of >= 1 byte; distinct by hash of (decoder, input) for random parts, by construction for enumerated parts.".into();
+    report.rule = "72 decoders (55 struct types, 17 reply enums). (i) exhaustive: every input of length <= 2 and cf,cf,len,body for every body of length <= 2; (ii) corpus of reference encodings of canonical values (>= 8 per type) + the repository's captured packets: every truncation and every single-byte substitution (256 values per offset; quick: offsets < 96 of a seed-dependent sample of 128 packets), each through the packet's own decoder and the reply enums; (iii) structure-aware random mutants of the reference chunk trees (length-prefix forms 81/82/82xx/FF/too long/too short, tag splices, BCD digit overflow, F nibbles, calendar values month 0-19 day 0-39 hour 0-29, duplicated/dropped groups, cuts inside containers) and large bodies up to 65535 bytes; (iv) the stream reader (PacketTransport::read_packet and the *_with_ack operations) over hostile byte streams: every extended header FF lo hi for all 65536 announced lengths with the stream ending behind the header / inside the body / (boundary lengths and a stride) behind the complete body, every short header likewise, random streams - a packet or an error, never a panic. Non-trivial = input of >= 1 byte; distinct by hash of (decoder, input) for random parts, by construction for enumerated parts.".into();
     report.exhaustive = Some(false);
     report.assumptions = vec![
         "allocation bound judged: peak live bytes during one decode <= 256 x input length + 256 KiB".into(),
@@ -681,6 +681,8 @@ pub fn run(ctx: &Ctx) -> i32 {
         }
     }
     report.counters.remove("max_peak_alloc_bytes_shard_sum");
+    // (iv) the stream reader of zvt/src/io.rs in front of the decoders
+    sharded(&mut report, nshards, |shard, r| crate::c04::hostile_transport(r, shard, nshards, seed, quick));
     if !quick && std::env::var("VERIF_NO_MIRI").is_err() {
         miri_tier(&mut report, "c02", 16, 150, seed);
     }
